@@ -3,10 +3,12 @@ Helpers shared by C24 (plan == conversion) and C25 (rename / duplicate / remove 
 
 Built on the scheduler lab (``vlib/schedlab.py``, engine E6):
 
-* ``gen_case(rng, slices)``       project (schedlab) restricted to the constructs the build-system transformations
-                                  document support for, a scheduler configuration with implicit seeds (roots of the
-                                  call DAG with ``role='driver'``), ``replicate`` / ``lib`` / ``mode`` entries and a
-                                  pipeline specification (list of ``(short name, options)``).
+* ``gen_project`` / ``add_drivers`` / ``gen_config``   project (schedlab) restricted to the constructs the
+                                  build-system transformations document support for, dedicated free driver routines,
+                                  a scheduler configuration with implicit seeds (``role='driver'``), ``replicate`` /
+                                  ``lib`` / ``mode`` entries
+* ``choose_pipeline`` / ``gen_sequence``   pipeline specifications (list of ``(short name, options)``); constructs
+                                  with a known finding ("traits") are only generated when the caller allows them
 * ``instantiate(spec)``           real transformation objects for a pipeline specification
 * ``toml_config(...)``            the same configuration + pipeline as a TOML file for ``loki_transform convert/plan``
 * ``WriteAudit``                  ``sys.addaudithook`` based log of files opened for writing
@@ -314,6 +316,7 @@ def gen_config(rng, P, opts=None):
             entry['mode'] = rng.choice(['other', 'idem'])
         if o['expand_false'] and rng.random() < 0.1:
             entry['expand'] = False
+            meta['traits'].add('lists')
         if entry:
             routines.setdefault(rkey(p), {}).update(entry)
     if o['lists'] and kernels:
@@ -627,7 +630,7 @@ def _explain(msg, blob):
     return msg[-900:]
 
 
-FAST_FLAGS = ['-O0', '-g', '-fcheck=all', '-ffree-line-length-none', '-finit-integer=-99999', '-w']
+FAST_FLAGS = ['-O0', '-fcheck=all', '-ffree-line-length-none', '-finit-integer=-99999', '-w']
 
 
 _CALL = re.compile(r'\bcall\s+(\w+)', re.I)
@@ -946,8 +949,6 @@ def gen_sequence(rng, P, exp, meta, allow=(), maxlen=4):
                     tr.add('dup_intf_then_rename')
                 if 'wrap' in later and any(not model.procs[g]['scope'] for g in group):
                     tr.add('dup_free_then_wrap')
-                if any(k in ('dep', 'wrap') for k in kinds[:pos]):
-                    tr.add('dup_after_rename')
                 if tr <= allow:
                     ok.append((n_, tr))
             if ok and suffix:
